@@ -2,7 +2,7 @@ from vf import Lemma
 import native
 R = lambda f: "%s/%s__c" % (f, f)
 MF = ["--malloc-may-fail", "--malloc-fail-null"]
-WS = "__CPROVER_contracts_write_set_check_assignment.0:300,debug_without_chunksize.0:22"
+WS = "__CPROVER_contracts_write_set_check_assignment.0:300,debug_without_chunksize.0:22,asm_mmap_file.0:3"
 
 
 def lemmas():
@@ -24,10 +24,10 @@ def lemmas():
               desc="fitting step on the library-managed buffer: padding and the re-assembled instruction are written through the buffer pointer re-read after each room check (a pointer kept across a growth is a use after free), earlier bytes preserved, fails only when mremap fails")
         for c in (16, 13)] + [
         Lemma(name="C19.asm_assemble_file", src="os.c", entry="h_assemble_file", props=["C19", "C17"], timeout=600, object_bits=10, unwindset=WS,
-              replace=["asm_assemble_str/asm_assemble_str__f", "asm_assemble_string_counting_chunks/asm_assemble_string_counting_chunks__f"], functions=["asm_assemble_file", "asm_mmap_file"], kf=["C19_PAGEMULT", "C19_EMPTY"],
-              desc="file entry point over the assumed open/fstat/mmap/munmap contracts (each may fail), file size symbolic up to three pages: the text handed to asm_assemble_str is a NUL-terminated string inside the mapping, the mapping is released once with its length, the result is that of the in-memory call unless an OS call failed"),
+              replace=["asm_assemble_str/asm_assemble_str__f", "asm_assemble_string_counting_chunks/asm_assemble_string_counting_chunks__f"], functions=["asm_assemble_file", "asm_mmap_file"],
+              desc="file entry point over the assumed open/fstat/mmap/read/munmap contracts (each may fail), file size symbolic from 0 to three pages (page multiples included): the text handed to asm_assemble_str is a NUL-terminated string inside the mapping, asm_assemble_str is the entry point called (once), the mapping is released once with its length, the result is that of the in-memory call unless an OS call failed"),
         Lemma(name="C19.asm_assemble_file_counting_chunks", src="os.c", entry="h_assemble_file_counting", props=["C19", "C17"], timeout=600, object_bits=10, unwindset=WS,
-              replace=["asm_assemble_str/asm_assemble_str__f", "asm_assemble_string_counting_chunks/asm_assemble_string_counting_chunks__f"], functions=["asm_assemble_file_counting_chunks", "asm_mmap_file"], kf=["C19_PAGEMULT", "C19_EMPTY"],
+              replace=["asm_assemble_str/asm_assemble_str__f", "asm_assemble_string_counting_chunks/asm_assemble_string_counting_chunks__f"], functions=["asm_assemble_file_counting_chunks", "asm_mmap_file"],
               desc="counting file entry point, same obligations"),
         Lemma(name="C19.asm_create_bin_file", src="os.c", entry="h_bin_file", props=["C19", "C17"], timeout=600, object_bits=10, functions=["asm_create_bin_file"],
               desc="binary output over the assumed fopen/fwrite/fclose contracts: exactly buffer[0, offset) is handed to fwrite; EXIT_SUCCESS only if the file was created, every byte written and the stream closed without error"),
